@@ -91,6 +91,15 @@ func (g *Gen) randomAggs(s schema, keys []string) []Agg {
 }
 
 func genC04(g *Gen) {
+	g.arrangedFrames("group arranged", func(f int) {
+		for _, k := range [][]string{{"B"}, {"E"}, {"X"}, {"B", "X"}, {}} {
+			g.do(Step{Op: "GroupBy", Recv: f, Cols: bsList(k), Null: true})
+			gid := len(g.x.groupers) - 1
+			g.do(Step{Op: "Aggregate", Recv: gid, Aggs: []Agg{{Fn: FnRef{K: "builtin", Sym: "sum"}, Col: toBS("I")}, {Fn: FnRef{K: "agg", Sym: "altAggI"}, Col: toBS("P")},
+				{Fn: FnRef{K: "agg", Sym: "firstAggF"}, Col: toBS("F")}, {Fn: FnRef{K: "agg", Sym: "lastAggB"}, Col: toBS("B")}}})
+			g.do(Step{Op: "QFrames", Recv: gid})
+		}
+	})
 	g.keyProducts("GroupBy", toBS("rid"))
 	g.largeKeyed("GroupBy", toBS("rid"))
 	g.groupArrangements(4)
@@ -190,6 +199,11 @@ func (g *Gen) groupArrangements(n int) {
 
 func genC05(g *Gen) {
 	rid := toBS("rid")
+	g.arrangedFrames("distinct arranged", func(f int) {
+		for _, k := range [][]string{{"B"}, {"E"}, {"X"}, {"B", "E"}, {"I"}, {}} {
+			g.do(Step{Op: "Distinct", Recv: f, Cols: bsList(k), Null: g.rng.Intn(2) == 0})
+		}
+	})
 	g.keyProducts("Distinct", rid)
 	g.largeKeyed("Distinct", rid)
 	sizes := []int{0, 1, 2, 3, 5, 9, 17, 33, 70, 140}
